@@ -70,26 +70,58 @@ impl Prog {
 /// a threshold-style parameter drawn from a small pool
 fn thr(rng: &mut Rng) -> i64 { rng.range(-1, 3) }
 
-/// generate the body of one stream. `src_pool`: names usable as sources.
-fn gen_body(rng: &mut Rng, name: &str, src: &[String], kind_hint: Option<&str>, decl_before: &[SDecl]) -> SDecl {
-    let pick = |rng: &mut Rng| -> String { src[rng.below(src.len() as u64) as usize].clone() };
-    let kinds: &[(&str, u64)] = &[
-        ("filter", 10), ("femit", 14), ("emit", 12), ("pass", 4), ("cwin", 8), ("cwin_noemit", 4), ("twin", 5),
-        ("swin", 3), ("pwin", 4), ("seq", 10), ("seq_noemit", 3), ("seq3", 3), ("join", 8), ("merge", 5), ("proc", 5), ("proc_emit", 2),
-        ("proc1", 2), ("distinct", 3), ("limit", 3), ("select", 3), ("having", 3),
-    ];
+/// the parameters of one stream declaration (what the edit operations of C23 mutate)
+#[derive(Clone, Debug, PartialEq)]
+struct Spec {
+    name: String,
+    kind: String,
+    /// up to three source names (event types or stream names)
+    s: Vec<String>,
+    /// threshold
+    c: i64,
+    /// window size / limit
+    n: i64,
+    /// emit increment
+    d: i64,
+    /// sequence correlation on k
+    corr: bool,
+}
+
+const KINDS: &[(&str, u64)] = &[
+    ("filter", 10), ("femit", 14), ("emit", 12), ("pass", 4), ("cwin", 8), ("cwin_noemit", 4), ("twin", 5),
+    ("swin", 3), ("pwin", 4), ("seq", 10), ("seq_noemit", 3), ("seq3", 3), ("join", 8), ("merge", 5), ("proc", 5), ("proc_emit", 2),
+    ("proc1", 2), ("distinct", 3), ("limit", 3), ("select", 3), ("having", 3),
+];
+
+fn gen_spec(rng: &mut Rng, name: &str, src: &[String], kind_hint: Option<&str>) -> Spec {
     let kind: String = match kind_hint {
         Some(k) => k.to_string(),
         None => {
-            let total: u64 = kinds.iter().map(|k| k.1).sum();
+            let total: u64 = KINDS.iter().map(|k| k.1).sum();
             let mut r = rng.below(total);
-            let mut k = kinds[0].0;
-            for (n, w) in kinds { if r < *w { k = n; break; } r -= w; }
+            let mut k = KINDS[0].0;
+            for (n, w) in KINDS { if r < *w { k = n; break; } r -= w; }
             k.to_string()
         }
     };
+    let pick = |rng: &mut Rng| -> String { src[rng.below(src.len() as u64) as usize].clone() };
     let s0 = pick(rng);
-    let mut d = SDecl { name: name.to_string(), body: String::new(), subs: vec![s0.clone()], prim: vec![s0.clone()],
+    let mut s1 = pick(rng);
+    let s2 = pick(rng);
+    if kind == "join" {
+        let mut guard = 0;
+        while s1 == s0 && guard < 8 { s1 = pick(rng); guard += 1; }
+        if s1 == s0 { s1 = INPUT_TYPES.iter().map(|t| t.to_string()).find(|t| *t != s0).unwrap(); }
+    }
+    Spec { name: name.to_string(), kind, s: vec![s0, s1, s2], c: thr(rng), n: rng.range(2, 3), d: rng.range(0, 2), corr: rng.chance(1, 2) }
+}
+
+/// render a declaration; `decl_before`: the declarations registered before this one
+fn render(sp: &Spec, decl_before: &[SDecl]) -> SDecl {
+    let (s0, s1, s2) = (sp.s[0].clone(), sp.s[1].clone(), sp.s[2].clone());
+    let (c, n, dd) = (sp.c, sp.n, sp.d);
+    let kind = sp.kind.clone();
+    let mut d = SDecl { name: sp.name.clone(), body: String::new(), subs: vec![s0.clone()], prim: vec![s0.clone()],
         join: false, proc_: false, kind: kind.clone(), nops: 0, stateless: false, rsrc: Some(s0.clone()) };
     // `resolve_event_type` of `compile_ops_with_sequences`: a sequence step that names an already
     // registered stream is subscribed under that stream's own source (one level)
@@ -99,56 +131,45 @@ fn gen_body(rng: &mut Rng, name: &str, src: &[String], kind_hint: Option<&str>, 
             None => n.clone(),
         }
     };
-    let c = thr(rng);
     match kind.as_str() {
         "filter" => { d.body = format!("{s0}\n    .where(x > {c})"); d.nops = 1; d.stateless = true; }
         "femit" => { d.body = format!("{s0}\n    .where(x > {c})\n    .emit(k: k, x: x)"); d.nops = 2; d.stateless = true; }
-        "emit" => { d.body = format!("{s0}\n    .emit(k: k, x: x + {})", rng.range(0, 2)); d.nops = 1; d.stateless = true; }
+        "emit" => { d.body = format!("{s0}\n    .emit(k: k, x: x + {dd})"); d.nops = 1; d.stateless = true; }
         "pass" => { d.body = s0.to_string(); d.nops = 0; d.stateless = true; }
-        "cwin" => { d.body = format!("{s0}\n    .window({})\n    .aggregate(n: count(), s: sum(x))\n    .emit(k: n, x: s)", rng.range(2, 3)); d.nops = 3; }
-        "cwin_noemit" => { d.body = format!("{s0}\n    .window({})\n    .aggregate(k: count(), x: sum(x))", rng.range(2, 3)); d.nops = 2; }
-        "twin" => { d.body = format!("{s0}\n    .window({}s)\n    .aggregate(n: count(), s: max(x))\n    .emit(k: n, x: s)", rng.range(2, 4)); d.nops = 3; }
-        "swin" => { d.body = format!("{s0}\n    .window(3, sliding: 1)\n    .aggregate(n: count(), s: sum(x))\n    .emit(k: n, x: s)"); d.nops = 3; }
-        "pwin" => { d.body = format!("{s0}\n    .partition_by(k)\n    .window(2)\n    .aggregate(n: count(), s: sum(x))\n    .emit(k: n, x: s)"); d.nops = 3; }
-        "having" => { d.body = format!("{s0}\n    .window(2)\n    .aggregate(n: count(), s: sum(x))\n    .having(s > {c})\n    .emit(k: n, x: s)"); d.nops = 4; }
+        "cwin" => { d.body = format!("{s0}\n    .window({n})\n    .aggregate(n: count(), s: sum(x))\n    .emit(k: n, x: s)"); d.nops = 3; }
+        "cwin_noemit" => { d.body = format!("{s0}\n    .window({n})\n    .aggregate(k: count(), x: sum(x))"); d.nops = 2; }
+        "twin" => { d.body = format!("{s0}\n    .window({}s)\n    .aggregate(n: count(), s: max(x))\n    .emit(k: n, x: s)", n + 1); d.nops = 3; }
+        "swin" => { d.body = format!("{s0}\n    .window({}, sliding: 1)\n    .aggregate(n: count(), s: sum(x))\n    .emit(k: n, x: s)", n + 1); d.nops = 3; }
+        "pwin" => { d.body = format!("{s0}\n    .partition_by(k)\n    .window({n})\n    .aggregate(n: count(), s: sum(x))\n    .emit(k: n, x: s)"); d.nops = 3; }
+        "having" => { d.body = format!("{s0}\n    .window({n})\n    .aggregate(n: count(), s: sum(x))\n    .having(s > {c})\n    .emit(k: n, x: s)"); d.nops = 4; }
         "seq" | "seq_noemit" => {
-            let s1 = pick(rng);
-            let cond = if rng.chance(1, 2) { " where k == a.k".to_string() } else { String::new() };
+            let cond = if sp.corr { " where k == a.k".to_string() } else { String::new() };
             d.body = format!("{s0} as a\n    -> {s1}{cond} as b");
             d.nops = 1;
             if kind == "seq" { d.body.push_str("\n    .emit(k: a.k, x: b.x)"); d.nops = 2; }
             d.subs = vec![s0.clone(), resolve(&s0), resolve(&s1)];
         }
         "seq3" => {
-            let s1 = pick(rng); let s2 = pick(rng);
             d.body = format!("{s0} as a\n    -> {s1} as b\n    -> {s2} where x > {c} as c\n    .emit(k: a.k, x: c.x)");
             d.nops = 2;
             d.subs = vec![s0.clone(), resolve(&s0), resolve(&s1), resolve(&s2)];
         }
         "join" => {
-            let mut s1 = pick(rng);
-            let mut guard = 0;
-            while s1 == s0 && guard < 8 { s1 = pick(rng); guard += 1; }
-            if s1 == s0 { // degenerate pool: fall back to a filter
-                d.body = format!("{s0}\n    .where(x > {c})"); d.nops = 1; d.kind = "filter".into(); d.stateless = true;
-            } else {
-                d.body = format!("join({s0}, {s1})\n    .on({s0}.k == {s1}.k)\n    .window(10s)\n    .select(k: {s0}.k, x: {s0}.x + {s1}.x)\n    .emit(k: k, x: x)");
-                d.nops = 3;
-                d.join = true;
-                // a join source that names an already declared stream without operations is subscribed under that stream's own source
-                let under = |n: &String| -> String {
-                    match decl_before.iter().find(|p| &p.name == n) {
-                        Some(p) if p.kind == "pass" => p.subs[0].clone(),
-                        _ => n.clone(),
-                    }
-                };
-                d.subs = vec![under(&s0), under(&s1)];
-                d.prim = vec![];
-                d.rsrc = None;
-            }
+            d.body = format!("join({s0}, {s1})\n    .on({s0}.k == {s1}.k)\n    .window(10s)\n    .select(k: {s0}.k, x: {s0}.x + {s1}.x)\n    .emit(k: k, x: x)");
+            d.nops = 3;
+            d.join = true;
+            // a join source that names an already declared stream without operations is subscribed under that stream's own source
+            let under = |n: &String| -> String {
+                match decl_before.iter().rev().find(|p| &p.name == n) {
+                    Some(p) if p.nops == 0 && p.kind == "pass" => p.subs[0].clone(),
+                    _ => n.clone(),
+                }
+            };
+            d.subs = vec![under(&s0), under(&s1)];
+            d.prim = vec![];
+            d.rsrc = None;
         }
         "merge" => {
-            let s1 = pick(rng);
             d.body = format!("merge({s0}, {s1})\n    .emit(k: k, x: x)");
             d.nops = 1;
             d.subs = vec![s0.clone(), s1.clone()];
@@ -160,11 +181,19 @@ fn gen_body(rng: &mut Rng, name: &str, src: &[String], kind_hint: Option<&str>, 
         "proc1" => { d.body = format!("{s0}\n    .where(x > {c})\n    .process(one())"); d.nops = 2; d.proc_ = true; d.stateless = true; }
         "proc_emit" => { d.body = format!("{s0}\n    .process(two())\n    .emit(k: k, x: x)"); d.nops = 2; d.proc_ = true; d.stateless = true; }
         "distinct" => { d.body = format!("{s0}\n    .distinct(x)\n    .emit(k: k, x: x)"); d.nops = 2; }
-        "limit" => { d.body = format!("{s0}\n    .limit({})\n    .emit(k: k, x: x)", rng.range(1, 3)); d.nops = 2; }
+        "limit" => { d.body = format!("{s0}\n    .limit({n})\n    .emit(k: k, x: x)"); d.nops = 2; }
         "select" => { d.body = format!("{s0}\n    .select(k: k, x: x * 2)"); d.nops = 1; d.stateless = true; }
         _ => unreachable!(),
     }
+    d.subs = dedup(&d.subs);
+    d.prim = dedup(&d.prim);
     d
+}
+
+fn render_prog(specs: &[Spec]) -> Prog {
+    let mut streams: Vec<SDecl> = Vec::new();
+    for sp in specs { let d = render(sp, &streams); streams.push(d); }
+    Prog { streams }
 }
 
 fn dedup(v: &[String]) -> Vec<String> {
@@ -173,13 +202,13 @@ fn dedup(v: &[String]) -> Vec<String> {
     out
 }
 
-fn gen_prog(rng: &mut Rng, ctx_thorough: bool) -> Prog {
-    let n = 1 + rng.below(if ctx_thorough { 5 } else { 5 }) as usize;
+fn gen_specs(rng: &mut Rng) -> Vec<Spec> {
+    let n = 1 + rng.below(5) as usize;
     // stream names; rarely a stream is named like an input type ("self-named types")
     let mut names: Vec<String> = (0..n).map(|i| format!("S{}", i)).collect();
     if rng.chance(1, 12) { let i = rng.below(n as u64) as usize; names[i] = "C".to_string(); }
     let shape = rng.below(10); // 0..5 random dag, 6 chain, 7 diamond, 8 cyclic, 9 fan-out
-    let mut streams: Vec<SDecl> = Vec::new();
+    let mut specs: Vec<Spec> = Vec::new();
     for i in 0..n {
         let inputs: Vec<String> = INPUT_TYPES.iter().map(|s| s.to_string()).collect();
         let earlier: Vec<String> = names[..i].to_vec();
@@ -200,13 +229,12 @@ fn gen_prog(rng: &mut Rng, ctx_thorough: bool) -> Prog {
             }
         };
         let hint = match shape { 7 if i > 0 && i + 1 == n && n > 2 => Some(*rng.pick(&["seq", "join", "merge", "seq3"])), _ => None };
-        let mut d = gen_body(rng, &names[i], &src, hint, &streams);
-        d.subs = dedup(&d.subs);
-        d.prim = dedup(&d.prim);
-        streams.push(d);
+        specs.push(gen_spec(rng, &names[i], &src, hint));
     }
-    Prog { streams }
+    specs
 }
+
+fn gen_prog(rng: &mut Rng, _thorough: bool) -> Prog { render_prog(&gen_specs(rng)) }
 
 // ---------------------------------------------------------------------------------------------
 // events and canonical forms
@@ -442,6 +470,190 @@ fn scenario_paths(ctx: &mut Ctx, runner: &Runner, sc: usize, prop: &str) {
     }
 }
 
+// ---------------------------------------------------------------------------------------------
+// C23: hot reload
+// ---------------------------------------------------------------------------------------------
+
+fn swap_group(kind: &str) -> Option<&'static [&'static str]> {
+    const G1: &[&str] = &["filter", "select", "emit", "proc"];
+    const G2: &[&str] = &["femit", "distinct", "limit", "proc_emit", "proc1"];
+    const G3: &[&str] = &["cwin", "twin", "swin", "pwin"];
+    [G1, G2, G3].into_iter().find(|g| g.contains(&kind))
+}
+
+/// one random edit of a program; returns the edit's name
+fn edit_once(rng: &mut Rng, specs: &mut Vec<Spec>) -> &'static str {
+    let n = specs.len();
+    let i = rng.below(n as u64) as usize;
+    match rng.below(9) {
+        0 => { // threshold change (same operation count)
+            let j = (0..n).map(|o| (i + o) % n).find(|&j| ["filter", "femit", "having", "seq3", "proc1"].contains(&specs[j].kind.as_str()));
+            match j {
+                Some(j) => { specs[j].c += if rng.chance(1, 2) { 1 } else { -1 }; "threshold" }
+                None => { specs[i].d += 1; specs[i].corr = !specs[i].corr; specs[i].n += 1; "param" }
+            }
+        }
+        1 => { // another operation, same operation count
+            let j = (0..n).map(|o| (i + o) % n).find(|&j| swap_group(&specs[j].kind).is_some());
+            match j {
+                Some(j) => {
+                    let g = swap_group(&specs[j].kind).unwrap();
+                    let others: Vec<&&str> = g.iter().filter(|k| **k != specs[j].kind).collect();
+                    specs[j].kind = others[rng.below(others.len() as u64) as usize].to_string();
+                    "swap-op-same-count"
+                }
+                None => { specs[i].corr = !specs[i].corr; specs[i].c += 1; "param" }
+            }
+        }
+        2 => { // added / removed step
+            let pairs = [("filter", "femit"), ("femit", "filter"), ("emit", "femit"), ("cwin_noemit", "cwin"), ("cwin", "cwin_noemit"),
+                ("seq_noemit", "seq"), ("seq", "seq_noemit"), ("cwin", "having"), ("having", "cwin"), ("pass", "filter"), ("filter", "pass")];
+            let j = (0..n).map(|o| (i + o) % n).find(|&j| pairs.iter().any(|p| p.0 == specs[j].kind));
+            match j {
+                Some(j) => {
+                    let opts: Vec<&(&str, &str)> = pairs.iter().filter(|p| p.0 == specs[j].kind).collect();
+                    specs[j].kind = opts[rng.below(opts.len() as u64) as usize].1.to_string();
+                    "add-remove-step"
+                }
+                None => { specs[i].c += 1; specs[i].d += 1; specs[i].n += 1; specs[i].corr = !specs[i].corr; "param" }
+            }
+        }
+        3 => { // changed window
+            let j = (0..n).map(|o| (i + o) % n).find(|&j| ["cwin", "cwin_noemit", "twin", "swin", "pwin", "having", "limit"].contains(&specs[j].kind.as_str()));
+            match j {
+                Some(j) => { specs[j].n += 1; "window" }
+                None => { specs[i].c += 1; specs[i].d += 1; specs[i].corr = !specs[i].corr; "param" }
+            }
+        }
+        4 => { // renamed stream (references follow or not)
+            let old = specs[i].name.clone();
+            let newn = format!("R{}", i);
+            specs[i].name = newn.clone();
+            if rng.chance(1, 2) {
+                for sp in specs.iter_mut() { for x in sp.s.iter_mut() { if *x == old { *x = newn.clone(); } } }
+                "rename-with-refs"
+            } else { "rename" }
+        }
+        5 => { // another source
+            let mut pool: Vec<String> = INPUT_TYPES.iter().map(|t| t.to_string()).collect();
+            pool.extend(specs.iter().map(|s| s.name.clone()));
+            let cur = specs[i].s[0].clone();
+            let cands: Vec<String> = pool.into_iter().filter(|x| *x != cur && (specs[i].kind != "join" || *x != specs[i].s[1])).collect();
+            specs[i].s[0] = cands[rng.below(cands.len() as u64) as usize].clone();
+            "source"
+        }
+        6 => { // added stream
+            let mut pool: Vec<String> = INPUT_TYPES.iter().map(|t| t.to_string()).collect();
+            pool.extend(specs.iter().map(|s| s.name.clone()));
+            let name = format!("N{}", n);
+            let sp = gen_spec(rng, &name, &pool, None);
+            let at = rng.below(n as u64 + 1) as usize;
+            specs.insert(at, sp);
+            "add-stream"
+        }
+        7 => { if n > 1 { specs.remove(i); "remove-stream" } else { specs[i].c += 1; specs[i].d += 1; specs[i].n += 1; specs[i].corr = !specs[i].corr; "param" } }
+        _ => { // reordered declarations
+            if n > 1 { let j = (i + 1) % n; specs.swap(i, j); "reorder" } else { specs[i].c += 1; specs[i].d += 1; specs[i].n += 1; specs[i].corr = !specs[i].corr; "param" }
+        }
+    }
+}
+
+fn fmt_results(it: &mut Intern, calls: &[&verif::StreamCall]) -> String {
+    if calls.is_empty() { return "-".into(); }
+    calls.iter().map(|c| format!("{}|{}", it.evs(c.outputs.iter().map(|e| &**e)), it.evs(c.emitted.iter().map(|e| &**e)))).collect::<Vec<_>>().join(";")
+}
+
+fn fmt_routes(it: &mut Intern, routes: &[(String, Vec<String>)]) -> String {
+    let mut s: Vec<String> = routes.iter().map(|(t, ss)| format!("{}:{}", it.ty(t), ss.iter().map(|x| it.ty(x).to_string()).collect::<Vec<_>>().join(","))).collect();
+    s.sort();
+    if s.is_empty() { "-".to_string() } else { s.join(" ") }
+}
+
+fn scenario_reload(ctx: &mut Ctx, runner: &Runner, sc: usize) {
+    let specs = gen_specs(&mut ctx.rng);
+    let mut specs2 = specs.clone();
+    let what: String = match ctx.rng.below(10) {
+        0 | 1 | 2 => "same".to_string(),
+        3 => { let a = edit_once(&mut ctx.rng, &mut specs2); let b = edit_once(&mut ctx.rng, &mut specs2); format!("{}+{}", a, b) }
+        _ => edit_once(&mut ctx.rng, &mut specs2).to_string(),
+    };
+    let p1 = render_prog(&specs);
+    let p2 = render_prog(&specs2);
+    let (vpl1, vpl2) = (p1.vpl(), p2.vpl());
+    let same = vpl1 == vpl2;
+    ctx.count(&format!("edit:{}", if same { "same" } else { what.as_str() }));
+    let nev = 3 + ctx.rng.below(if ctx.thorough { 10 } else { 7 }) as usize;
+    let events = gen_events(&mut ctx.rng, nev);
+    let path = *ctx.rng.pick(&[Path::Event, Path::Event, Path::Batch, Path::Sync]);
+    let mut it = Intern::default();
+    for t in INPUT_TYPES { it.ty(t); }
+    ctx.directive(&format!("new {} # {} ==[{}]==> {}", sc, p1.one_line(), what, p2.one_line()));
+    emit_prog_lines(ctx, &mut it, "stream", &p1);
+    emit_prog_lines(ctx, &mut it, "rstream", &p2);
+    for d in &p2.streams { ctx.count(&format!("kind:{}", d.kind)); }
+    let program2 = match varpulis_parser::parse(&vpl2) {
+        Ok(p) => p,
+        Err(e) => { eprintln!("generator error: front end rejects a generated program: {}\n{}", e, vpl2); std::process::exit(3); }
+    };
+    let inputs = it.evs(events.iter());
+    let feed_all = |live: &mut Live, evs: &[Event]| -> (Vec<Event>, Vec<verif::StreamCall>) {
+        if evs.is_empty() { return (vec![], vec![]); }
+        match runner.feed(live, path, evs.to_vec()) { Ok(x) => x, Err(e) => { eprintln!("engine error {}", e); std::process::exit(3); } }
+    };
+    // the never-reloaded engine of P (reference for `same`) and the fresh engine of P' (reference for k = 0)
+    let never: Option<String> = if same { let mut l = runner.load(&vpl1).unwrap(); let (o, _) = feed_all(&mut l, &events); Some(it.evs(o.iter())) } else { None };
+    let ks: Vec<usize> = (0..=events.len()).collect();
+    for &k in &ks {
+        let mut live = match runner.load(&vpl1) { Ok(l) => l, Err(e) => { eprintln!("generator error: {}\n{}", e, vpl1); std::process::exit(3); } };
+        let (out_pre, calls_pre) = feed_all(&mut live, &events[..k]);
+        let rep = live.engine.reload(&program2);
+        if let Err(e) = rep { ctx.case(&format!("reload {} {}", k, inputs), &format!("error:{}", e.replace('\n', " "))); continue; }
+        let routes = live.engine.verif_routes();
+        let (out_post, calls_post) = feed_all(&mut live, &events[k..]);
+        if k == 0 { ctx.case("rrouter", &fmt_routes(&mut it, &routes)); }
+        ctx.directive(&format!("trace pre {}", fmt_calls(&mut it, &calls_pre)));
+        ctx.directive(&format!("trace post {}", fmt_calls(&mut it, &calls_post)));
+        let names2: Vec<String> = p2.streams.iter().map(|d| d.name.clone()).collect();
+        let res = format!("{} | {} | {}", it.evs(out_pre.iter()), it.evs(out_post.iter()), fmt_handed(&mut it, &names2, &calls_post));
+        ctx.case(&format!("reload {} {}", k, inputs), &res);
+        if !calls_post.is_empty() { ctx.count("reload:post-activity"); }
+        if let Some(nv) = &never {
+            let all: Vec<Event> = out_pre.iter().chain(out_post.iter()).cloned().collect();
+            ctx.case(&format!("same {} {}", k, inputs), &format!("{} / {}", it.evs(all.iter()), nv));
+        }
+        if k == 0 {
+            let mut f = runner.load(&vpl2).unwrap();
+            let (o, _) = feed_all(&mut f, &events);
+            ctx.case(&format!("fresh0 {}", inputs), &format!("{} / {}", it.evs(out_post.iter()), it.evs(o.iter())));
+        }
+        // every stream of P' in isolation: a fresh engine of P' is handed exactly what the stream was handed
+        // (before and after the reload if the stream is unchanged, after the reload if it is new or changed)
+        for d2 in &p2.streams {
+            let unchanged = p1.streams.iter().any(|d1| d1.name == d2.name && d1.body == d2.body && d1.subs == d2.subs);
+            let post: Vec<&verif::StreamCall> = calls_post.iter().filter(|c| c.stream == d2.name).collect();
+            if post.is_empty() { continue; }
+            let mut fed: Vec<Event> = Vec::new();
+            if unchanged { fed.extend(calls_pre.iter().filter(|c| c.stream == d2.name).map(|c| (*c.input).clone())); }
+            let npre = fed.len();
+            fed.extend(post.iter().map(|c| (*c.input).clone()));
+            let mut f = runner.load(&vpl2).unwrap();
+            verif::start();
+            let mut ok = true;
+            for e in &fed { if runner.rt.block_on(f.engine.process(e.clone())).is_err() { ok = false; break; } }
+            let calls_ref = verif::take();
+            let mine: Vec<&verif::StreamCall> = calls_ref.iter().filter(|c| c.stream == d2.name).collect();
+            let sid = it.ty(&d2.name);
+            let op = format!("iso {} {} changed={}", k, sid, (!unchanged) as u8);
+            let same_inputs = ok && mine.len() == fed.len() && mine.iter().zip(fed.iter()).all(|(c, e)| it.ev(&c.input) == it.ev(e));
+            if !same_inputs { ctx.case(&op, "skip"); ctx.count("iso:skipped"); continue; }
+            ctx.count(if unchanged { "iso:unchanged" } else { "iso:changed" });
+            let r = fmt_results(&mut it, &post);
+            let q = fmt_results(&mut it, &mine[npre..]);
+            ctx.case(&op, &format!("{} / {}", r, q));
+        }
+    }
+}
+
 pub fn run(ctx: &mut Ctx, name: &str) {
     let runner = Runner::new();
     match name {
@@ -449,7 +661,10 @@ pub fn run(ctx: &mut Ctx, name: &str) {
             let n = if ctx.thorough { 6000 } else { 600 };
             for sc in 0..n { scenario_paths(ctx, &runner, sc, name); }
         }
-        "C23" => {}
+        "C23" => {
+            let n = if ctx.thorough { 2500 } else { 250 };
+            for sc in 0..n { scenario_reload(ctx, &runner, sc); }
+        }
         _ => {}
     }
 }
